@@ -265,16 +265,6 @@ func (dsm *DsManager) DeleteDataset(name string) error {
 	existingDataset := dsm.GetDataset(name)
 	existingDataset.markedForDeletion = true
 
-	// delete from local cache
-	dsm.store.datasets.Delete(name)
-	dsm.store.datasetsByInternalID.Delete(existingDataset.InternalID)
-	key := existingDataset.getStorageKey()
-	err := dsm.store.deleteValue(key)
-	if err != nil {
-		return err
-	}
-	verifhook.Point(dsm.store.database, "DeleteDataset.afterRecordDelete")
-
 	// record we deleted it.
 	// swap map out with new modified copy of map to avoid concurrent read/write issues which can occur if
 	// a user deletes a dataset while this map is iterated over (in garbagecollector for example)
@@ -283,11 +273,20 @@ func (dsm *DsManager) DeleteDataset(name string) error {
 		newDeletedDatasets[k] = v
 	}
 	newDeletedDatasets[existingDataset.InternalID] = true
-	dsm.store.deletedDatasets = newDeletedDatasets
-	err = dsm.store.StoreObject(StoreMetaIndex, "deleteddatasets", dsm.store.deletedDatasets)
+
+	// remove the dataset record and persist the set of deleted datasets in one step: if only the
+	// record were gone after a crash, the dataset's data would be visible again with no way to delete it
+	key := existingDataset.getStorageKey()
+	err := dsm.store.deleteValueAndStoreObject(key, StoreMetaIndex, "deleteddatasets", newDeletedDatasets)
 	if err != nil {
 		return err
 	}
+	verifhook.Point(dsm.store.database, "DeleteDataset.afterRecordDelete")
+	dsm.store.deletedDatasets = newDeletedDatasets
+
+	// delete from local cache
+	dsm.store.datasets.Delete(name)
+	dsm.store.datasetsByInternalID.Delete(existingDataset.InternalID)
 
 	verifhook.Point(dsm.store.database, "DeleteDataset.afterDeletedSet")
 	dsm.eb.UnregisterTopic(name) // unregister event-handler on this topic. Note that subscriptions are left.
